@@ -1030,7 +1030,7 @@ func (in *Interp) opaqueString(st *State, why string) Value {
 
 // goArgs converts the variadic []any of a formatting call to native values
 // when all of them are concrete scalars/strings.
-func (in *Interp) goArgs(st *State, v Value) ([]interface{}, bool) {
+func (in *Interp) goArgs(st *State, v Value, stringers ...bool) ([]interface{}, bool) {
 	s, ok := v.(Slice)
 	if !ok {
 		return nil, false
@@ -1039,6 +1039,15 @@ func (in *Interp) goArgs(st *State, v Value) ([]interface{}, bool) {
 	for i := 0; i < s.Len && s.Obj >= 0; i++ {
 		ifc, ok := in.elem(st, s, i).(Iface)
 		if !ok || ifc.T == nil {
+			return nil, false
+		}
+		// %s / %v of a value with a String() or Error() method (and no Format method): run the
+		// method on the value; it succeeds only when it needs no fork (concrete data)
+		if len(stringers) > 0 && stringers[0] && in.hasFormatMethod(ifc.T) {
+			if str, ok := in.stringOf(st, ifc); ok {
+				out = append(out, str)
+				continue
+			}
 			return nil, false
 		}
 		switch x := ifc.V.(type) {
@@ -1079,11 +1088,54 @@ func (in *Interp) goArgs(st *State, v Value) ([]interface{}, bool) {
 
 func fmtSprintf(in *Interp, st *State, fn *ssa.Function, args []Value, retTo ssa.Value, pos token.Pos) (Value, bool) {
 	if f, ok := in.concreteStr(st, args[0]); ok {
-		if ga, ok := in.goArgs(st, args[1]); ok {
+		if ga, ok := in.goArgs(st, args[1], onlyStringVerbs(f)); ok {
 			return in.strConst(st, fmt.Sprintf(f, ga...)), true
 		}
 	}
 	return in.opaqueString(st, "Sprintf"), true
+}
+
+// onlyStringVerbs: every verb of the format is a plain %s or %v (for which fmt
+// prints a Stringer / error through its method).
+func onlyStringVerbs(f string) bool {
+	for i := 0; i < len(f); i++ {
+		if f[i] != '%' {
+			continue
+		}
+		i++
+		if i >= len(f) || (f[i] != 's' && f[i] != 'v' && f[i] != '%') {
+			return false
+		}
+	}
+	return true
+}
+
+// stringOf evaluates v.String() (or v.Error()) in the engine.
+func (in *Interp) stringOf(st *State, ifc Iface) (string, bool) {
+	ms := in.prog.MethodSets.MethodSet(ifc.T)
+	if ms.Lookup(nil, "Format") != nil {
+		return "", false
+	}
+	sel := ms.Lookup(nil, "Error")
+	if sel == nil {
+		sel = ms.Lookup(nil, "String")
+	}
+	if sel == nil {
+		return "", false
+	}
+	m := in.eng.methodValue(sel)
+	if m == nil {
+		return "", false
+	}
+	res, ok := in.callSync(st, m, []Value{ifc.V})
+	if !ok {
+		return "", false
+	}
+	sl, isStr := res.(Slice)
+	if !isStr || !sl.Str || sl.Opaque {
+		return "", false
+	}
+	return in.concreteStr(st, sl)
 }
 
 func fmtOpaque(in *Interp, st *State, fn *ssa.Function, args []Value, retTo ssa.Value, pos token.Pos) (Value, bool) {
